@@ -37,6 +37,9 @@ SHAPES = {
     "gen": dict(g="", ps=[("g", "G", "11i64", "g")], ret="G", res="g", needs_g=True),
     "gm": dict(g="<Y: Clone + ::core::fmt::Display>", ps=[("y", "Y", "11u8", "y")], ret="Y", res="y", dyn=False),
     "gmc": dict(g="<const M: usize, Y: Clone + ::core::fmt::Display>", ps=[("y", "[Y; M]", "[11u8; 2]", "y[0]")], ret="Y", res="y[0].clone()", dyn=False),
+    # a method type parameter that nothing in the arguments mentions: the caller names it, the delegation has to pass it on
+    "gu": dict(g="<U: ::core::default::Default + ::core::fmt::Display>", ps=[("a", "i64", "11", "a")], ret="String", res='format!("{}{}", U::default(), a)',
+               dyn=False, call_generics="::<u8>"),
     "xa1": dict(g="", ps=[("a", "i64", "11", "a")], ret="i64", res="a + 1", asy=True),
     "xa2": dict(g="", ps=[("a", "i64", "11", "a"), ("b", "i64", "12", "b")], ret="i64", res="a * 100 + b", asy=True),
     "xs": dict(g="", ps=[("a", "&str", '"s11"', "a")], ret="usize", res="a.len()", asy=True),
@@ -189,7 +192,7 @@ def render(s):
     for i, x in enumerate(w):
         d = SHAPES[x]
         args = ", ".join(["&app"] + [p[2] for p in d["ps"]])
-        call = "<::entrait::Impl<App> as Tr%s>::m%d(%s)" % (GA, i, args)
+        call = "<::entrait::Impl<App> as Tr%s>::m%d%s(%s)" % (GA, i, d.get("call_generics", ""), args)
         if "unsafe" in d.get("qual", ""):
             call = "unsafe { %s }" % call
         if d.get("asy"):
@@ -211,7 +214,7 @@ def model(s):
         d = SHAPES[x]
         shown = {"11": "11", "12": "12", "13": "13", '"s11"': "s11", "11i64": "11", "11u8": "11", "[11u8; 2]": "11", "(11, 12)": "11"}
         args = [shown[p[2]] for p in d["ps"]]
-        res = {"n0": "7", "a1": "12", "tr": "12", "gmc": "11", "a2": "1112", "h2": "1112", "df": "12", "dfs": "12", "pt": "1113", "um": "12", "em": "12", "hm": "12", "s2": "s11-12", "bor": "s11", "slf": "prov", "gen": "11", "gm": "11",
+        res = {"n0": "7", "a1": "12", "tr": "12", "gmc": "11", "gu": "011", "a2": "1112", "h2": "1112", "df": "12", "dfs": "12", "pt": "1113", "um": "12", "em": "12", "hm": "12", "s2": "s11-12", "bor": "s11", "slf": "prov", "gen": "11", "gm": "11",
                "xa1": "12", "xa2": "1112", "xs": "3", "xu": "()"}[x]
         exp["m%d" % i] = dict(trace_tail="|".join(args), result=res)
     try_dyn = all(SHAPES[x].get("dyn", True) for x in w) and not (asy and s["flavour"] == "native")
